@@ -272,9 +272,9 @@ theorem rpc_request_over_faulty_network (c : Chan.Cipher) (hc : Chan.CipherOk c)
     client's RMC layer passed to `send` is the framed request of a generated-client call, then the k-th message the server's
     RMC layer is handed — if it has been handed k+1 messages — parses to that request and the generated server decodes the
     visible arguments. -/
-theorem rpc_request_between_endpoints (penv : L1.Env) (hcomp : ∀ b, penv.compress b = b) (hdec : ∀ b, penv.decompress b = .ok b)
+theorem rpc_request_between_endpoints (penv : L1.Env) (hl : L1.EnvLaws penv)
     (sub : Nat) (ci : Chan.Cipher) (size : Nat) (hsz : 1 ≤ size) (start : Nat) (ops : List L1.SysOp) (s : L1.Sys) (ch : Chan.Chan)
-    (h0 : L1.Good sub ci size start s ch) (hok : L1.Sys.runOk penv sub s ops = true)
+    (h0 : L1.Good penv sub ci size start s ch) (hok : L1.Sys.runOk penv sub s ops = true)
     {env : Env} {cfg : Cfg} {fuel : Nat} {p : ProtoDef} {m : MethodDef} {args : List Val} {pi mi : Nat} {body : Bytes}
     (h : clientRequest env cfg fuel p m args = .ok (pi, mi, body)) (callId : Nat)
     (hwf : (Rmc.Spec.request pi callId mi body).WF) (wire : Bytes)
@@ -283,7 +283,7 @@ theorem rpc_request_between_endpoints (penv : L1.Env) (hcomp : ∀ b, penv.compr
     (got : Bytes) (hgot : ((L1.Sys.run penv sub s ops).b.queues[sub]?.getD [])[k]? = some got) :
     ∃ msg, Rmc.decode got = .ok msg ∧ msg.mode = 0 ∧ msg.protocol = p.id ∧ msg.method = some m.id ∧ msg.callId = callId
       ∧ serverRequest env cfg fuel m msg.body = .ok (visArgs env cfg fuel m.request args) := by
-  have hd := L1.good_delivers_kth (L1.sys_refines penv hcomp hdec sub ci size hsz start ops s ch h0 hok).1 k got hgot
+  have hd := L1.good_delivers_kth (L1.sys_refines penv hl sub ci size hsz start ops s ch h0 hok).1 k got hgot
   rw [hsent] at hd
   cases hd
   obtain ⟨wire', msg, e1, e2, r⟩ := rpc_roundtrip_request h callId hwf
